@@ -4,7 +4,7 @@
 (*   e.req   [cop : <<notice>>, verb : <<text>> (statements given as complete        *)
 (*            notices), lic, con : <<text>>, merge, skipExisting, skipUnrecognised,   *)
 (*            rendersCon : BOOLEAN]                                                   *)
-(*   e.files <<[name, mustSucceed, unrecognised, pre, post]>> with pre / post =       *)
+(*   e.files <<[name, mustSucceed, mustFail, unrecognised, pre, post]>> with pre / post =       *)
 (*            [cop, lic, con : <<text>>, notices : <<parsed notice>>, sha, licsha]    *)
 (*            - what the tool's own linter reads for the file, and content hashes     *)
 (*            of the file and of its .license sibling ("absent" if there is none)     *)
@@ -65,6 +65,8 @@ C11Clause(i) ==
         THEN "C11.header-that-cannot-be-valid-was-not-refused"
    ELSE IF e.exit = 2
         THEN IF \A f \in FilesOf(e) : Untouched(f) /\ e.treeUnchanged THEN "" ELSE "C11.usage-error-after-touching-files"
+   ELSE IF \E f \in FilesOf(e) : f.mustFail /\ (~Untouched(f) \/ e.exit # 1)
+        THEN "C11.header-that-cannot-be-valid-was-not-refused"
    ELSE IF e.exit # 0 /\ Touched(e) # {} THEN "C11.failed-annotation-left-a-trace"
    ELSE IF e.exit = 1 /\ \A f \in FilesOf(e) : Complete(e, f) \/ LegitSkip(e, f)
         THEN "C11.exit-status-1-but-every-file-was-handled"
